@@ -127,3 +127,61 @@ def liveness(kinds, maxc, timeout=1.5):
     t0 = time.time()
     r = asyncio.run(main())
     return bool(verdict.get("served")), dict(result=r, ticks=ticks[0], wall=round(time.time() - t0, 2))
+
+
+def liveness_on_failure(maxc, timeout=1.5):
+    """Two async-thread nodes in flight; one raises while the other is still running and only returns once a
+    heartbeat coroutine has made progress.  The failing call must not take the loop hostage either: the loop
+    keeps serving other coroutines while the surviving node is still running.  Returns (ok, detail)."""
+    ticks = [0]
+    started = threading.Event()
+    failed_seen = threading.Event()
+    progressed = threading.Event()
+    done_a = threading.Event()
+    verdict = {}
+
+    def a_node():
+        started.set()
+        failed_seen.wait(timeout)            # stay in flight until the sibling has failed ...
+        ok = progressed.wait(timeout)        # ... and the loop has served the heartbeat since
+        verdict["served"] = ok
+        done_a.set()
+        return "a"
+
+    def f_node():
+        started.wait(timeout)
+        raise RuntimeError("boom")
+
+    a_node.__qualname__ = a_node.__name__ = "a_node"
+    f_node.__qualname__ = f_node.__name__ = "f_node"
+    xa = xn(a_node, resource=Resource.async_thread, priority=2)
+    xf = xn(f_node, resource=Resource.async_thread, priority=1)
+
+    def describe():
+        return xa(), xf()
+    describe.__qualname__ = describe.__name__ = "live_fail"
+    d = threadsafe_make_dag(describe, maxc, True)
+    raised = {}
+
+    async def heartbeat():
+        n_after = 0
+        while not done_a.is_set():
+            await asyncio.sleep(0.002)
+            if failed_seen.is_set():
+                n_after += 1
+                ticks[0] = n_after
+                if n_after >= 5:
+                    progressed.set()
+
+    async def main():
+        hb = asyncio.ensure_future(heartbeat())
+        try:
+            await d()
+        except BaseException as e:  # noqa: BLE001
+            raised["exc"] = type(e).__name__
+        failed_seen.set()
+        await hb
+    t0 = time.time()
+    asyncio.run(main())
+    return bool(verdict.get("served")) and "exc" in raised, dict(raised=raised.get("exc"), ticks=ticks[0],
+                                                                 wall=round(time.time() - t0, 2))
